@@ -129,13 +129,18 @@ def observe(font):
 _CLEAN = {}
 
 
-def clean_path(key, lazy_i, edits):
+HB_OPT = "fontTools.ttLib.tables.otBase:USE_HARFBUZZ_REPACKER"
+
+
+def clean_path(key, lazy_i, edits, purepy=False):
     """fresh load, the same edits in the same order, one save"""
-    ck = (key, tuple(edits))
+    ck = (key, tuple(edits), purepy)
     if ck not in _CLEAN:
         if len(_CLEAN) > 200:
             _CLEAN.clear()
         f = TTFont(io.BytesIO(_FONTS[key]), lazy=False, recalcTimestamp=False)
+        if purepy:
+            f.cfg[HB_OPT] = False
         f.ensureDecompiled()
         for e in edits:
             apply_edit(f, e)
@@ -146,10 +151,10 @@ def clean_path(key, lazy_i, edits):
 class Histories(Unit):
     name = "save-histories"
     rule = ("explorer over operation histories on a real TTFont brought to its recompile fixed point: alphabet = touch(t) for 4 (thorough 5) tables, save, saveXML, ensureDecompiled, getTableData(t) x2, 3 edits (an advance width; head.fontRevision+OS/2 weight; a GPOS lookup flag or a cmap entry); "
-            "ALL histories of length <= 3 (quick) / 4 (thorough) for one lazy mode per font (rotating with the seed) and length <= 2 / 3 for the other two lazy modes; oracle at the end of every history: after loading all tables, save() bytes and saveXML() text equal those of the clean path (fresh load of all tables + the same edits + one save); histories without edits must also still save to the exact bytes they were loaded from with whatever set of tables is loaded, "
+            "ALL histories of length <= 3 (quick) / 4 (thorough) for one lazy mode per font (rotating with the seed) and length <= 2 / 3 for the other two lazy modes, plus all histories of length <= 2 / 3 with the layout tables packed by the pure-Python serializer (USE_HARFBUZZ_REPACKER=False); oracle at the end of every history: after loading all tables, save() bytes and saveXML() text equal those of the clean path (fresh load of all tables + the same edits + one save); histories without edits must also still save to the exact bytes they were loaded from with whatever set of tables is loaded, "
             "i.e. earlier saves/dumps/compiles/touch order left no trace; states = distinct (font, lazy, loaded-set, edit sequence, #saves so far), transitions = operations executed")
     chunk = 40
-    required_witnesses = ("history with save before edit", "history with two saves", "history saveXML then save", "lazy history")
+    required_witnesses = ("history with save before edit", "history with two saves", "history saveXML then save", "lazy history", "pure-Python packer history")
 
     def setup(self, tier, seed):
         load_fonts()
@@ -165,17 +170,28 @@ class Histories(Unit):
             ops = alphabet(font, tier)
             for lazy_i in (0, 1, 2):
                 # quick: depth 3 for lazy=None, depth 2 for the other lazy modes of each font
-                d = depth if lazy_i == (h64(key) + seed) % 3 else depth - 1
+                main = lazy_i == (h64(key) + seed) % 3
+                d = depth if main else depth - 1
                 for n in range(0, d + 1):
                     for hist in itertools.product(range(len(ops)), repeat=n):
-                        yield [key, lazy_i, [ops[i] for i in hist]]
+                        yield [key, lazy_i, [ops[i] for i in hist], False]
+                # layout tables packed by the pure-Python serializer (USE_HARFBUZZ_REPACKER=False):
+                # its writer state is a second place where a compile can leave a trace
+                if main and ("GSUB" in font or "GPOS" in font):
+                    for n in range(1, depth):
+                        for hist in itertools.product(range(len(ops)), repeat=n):
+                            yield [key, lazy_i, [ops[i] for i in hist], True]
 
     def bounds(self, tier, seed):
         return {"fonts": sorted(_FONTS), "depth": 3 if tier == "quick" else 4}
 
     def check(self, case, rec):
-        key, lazy_i, hist = case
+        key, lazy_i, hist = case[:3]
+        purepy = bool(case[3]) if len(case) > 3 else False
         font = TTFont(io.BytesIO(_FONTS[key]), lazy=LAZY[lazy_i], recalcTimestamp=False)
+        if purepy:
+            font.cfg[HB_OPT] = False
+            rec.witness("pure-Python packer history")
         edits = []
         saves = 0
         for op in hist:
@@ -193,11 +209,17 @@ class Histories(Unit):
             b0 = io.BytesIO()
             font.save(b0)
             rec.transition()
-            if b0.getvalue() != _FONTS[key]:
+            if purepy:
+                # the file was packed by the default serializer: the reference is the clean path
+                # under the same configuration
+                ref0 = clean_path(key, lazy_i, [], purepy)[0] if font.isLoaded("GSUB") or font.isLoaded("GPOS") else _FONTS[key]
+            else:
+                ref0 = _FONTS[key]
+            if b0.getvalue() != ref0 and not (purepy and not all(font.isLoaded(t) for t in ("GSUB", "GPOS") if t in font)):
                 rec.violation("history-noedit-bytes:" + hist_class(hist), "%s lazy=%r history %s (no edits): save() no longer reproduces the file the font was loaded from: tables %s" % (key, LAZY[lazy_i], hist, diff_tables(b0.getvalue(), _FONTS[key])))
         got = observe(font)
         rec.transition(3)
-        exp = clean_path(key, lazy_i, edits)
+        exp = clean_path(key, lazy_i, edits, purepy)
         kinds = [op[0] for op in hist]
         if got[0] != exp[0]:
             rec.violation("history-bytes:" + hist_class(hist), "%s lazy=%r history %s: saved bytes differ from the clean path (same edits, one save): tables %s" % (key, LAZY[lazy_i], hist, diff_tables(got[0], exp[0])))
